@@ -3,7 +3,7 @@ EXTENDS Reduce, Json
 CONSTANT MaxLevel
 Bound == TLCGet("level") <= MaxLevel
 View  == vars
-Vars  == [g |-> g]
+Vars  == [g |-> g, stack |-> stack, taken |-> taken]
 Emit  == PrintT(ToJson([lvl |-> TLCGet("level"), from |-> Vars, act |-> act', to |-> Vars', err |-> err']))
 EmitState == PrintT(ToJson([st |-> Vars, obs |-> Obs]))
 =====================================================================================================
